@@ -117,6 +117,21 @@ def run(v) -> None:
             if [int(x) for x in o] != exp:
                 v.violation(f"Kernel{api.capitalize()}Table", f"kernels.{api}{nb}_8_{order}",
                             {"nbits": nb, "order": order, "byte": byte}, [int(x) for x in o], exp)
+    # the vectorised 1-bit packer (kernels.pack1_8_vect): whole table at once, both byte orders
+    for order in ("big", "little"):
+        want = [r for r in rows if r["nbits"] == 1 and r["order"] == order]
+        want.sort(key=lambda r: r["byte"])
+        flat = np.array([f for r in want for f in r["fields"]], dtype=np.uint8)
+        o = np.full(256, 0xFF, dtype=np.uint8)
+        try:
+            kernels.pack1_8_vect(flat, o, big_endian=(order == "big"))
+            got = [int(x) for x in o]
+        except Exception as exc:  # noqa: BLE001
+            got = [f"raise:{type(exc).__name__}"]
+        v.evaluations += 1
+        if got != list(range(256)):
+            bad = next((i for i, g in enumerate(got) if g != i), 0)
+            v.violation("KernelPackTable", "kernels.pack1_8_vect", {"nbits": 1, "order": order, "byte": bad}, got[bad:bad + 4], [bad])
     v.sample({"R_row": rows[27]})
 
     # (T) code -> spec -------------------------------------------------------------------------
